@@ -13,6 +13,17 @@ NC = {"uq": "uq_%(table_name)s_%(column_0_name)s", "fk": "fk_%(table_name)s_%(co
       "ix": "ix_%(column_0_label)s", "pk": "pk_%(table_name)s"}
 
 
+# a convention whose entries contain %(constraint_name)s: a plain name is expanded (once more), a conv() name is final.
+# No "pk" entry: every Table has an implicit unnamed PrimaryKeyConstraint, which such an entry would reject.
+NC2 = {"uq": "uq_%(table_name)s_%(constraint_name)s", "fk": "fk_%(table_name)s_%(constraint_name)s",
+       "ck": "ck_%(table_name)s_%(constraint_name)s", "ix": "ix_%(table_name)s_%(constraint_name)s"}
+
+
+def nc_of(nc):
+    """human 'nc' field: False/0 none, True/1 the token-free convention, 2 the one with constraint_name tokens"""
+    return {0: None, 1: NC, 2: NC2}[int(nc)]
+
+
 class OutsideUniverse(Exception):
     """the object has a feature the model does not cover: a harness error, never silently dropped"""
 
@@ -168,8 +179,8 @@ def e_top(o):
     raise OutsideUniverse(k)
 
 
-def e_cfg(c):
-    return "(mkCfg %s %s %s)" % (S(c["op"]), S(c["sa"]), b(c["batch"]))
+def e_cfg(c, nc=0):
+    return "(mkCfg %s %s %s %s)" % (S(c["op"]), S(c["sa"]), b(c["batch"]), b(int(nc) == 2))
 
 
 # ----------------------------------------------------------------------------- python source -> pyexpr
@@ -603,7 +614,7 @@ def sql_of(dialect, fn, nc):
     buf = io.StringIO()
     opts = {"as_sql": True, "output_buffer": buf}
     if nc:
-        opts["target_metadata"] = sa.MetaData(naming_convention=NC)
+        opts["target_metadata"] = sa.MetaData(naming_convention=nc_of(nc))
     ctx = MigrationContext.configure(dialect_name=dialect, opts=opts)
     try:
         with warnings.catch_warnings():
